@@ -219,7 +219,8 @@ def run(prop, tier, seed, opts):
         cov = dict(states=max(1, res["distinct"]), transitions=max(1, res["states"]),
                    traces_validated_against_impl=len(results), evaluations=nrenders,
                    distinct_nontrivial=len({r.get("key") for r in results}),
-                   rule="(plus TLC random walks of 24 operations) every operation history of length MaxLen over register / parse (discarded and kept) / render / render of a "
+                   rule="(plus TLC random walks of 24 operations) every operation history of length MaxLen over register (by four routes: RegisterString, ParseTemplate + "
+                        "RegisterTemplate, RegisterCompiledTemplate, LoadFromCompiledData; the route is fixed by the position in the history) / parse (discarded and kept) / render / render of a "
                         "kept template / cache and debug toggles / GC / activity on a second (policy-less) engine that ends in a render; behaviours "
                         "that start after a prepared prefix of registrations (10 pairs of sources that reach each other by include / extends / "
                         "import / sandboxed include, x 2 sources on the second engine) followed by every sequence of 2 (3) renders or GCs over "
@@ -234,7 +235,7 @@ def run(prop, tier, seed, opts):
         V.write_evidence(prop, tier, seed, "model_checking", cov, wall, len(violations),
                          ["EngineLife.tla: rendering is an uninterpreted function of the logical state (key)",
                           "oracle = one fresh OS process per key; histories run back-to-back in 16 worker processes",
-                          "RegisterString only while the cache is on (what it does otherwise is not determined by the property)"])
+                          "registration only while the cache is on (what it does otherwise is not determined by the property)"])
         for n in notes:
             print(n)
         for v in violations:
